@@ -1163,6 +1163,173 @@ theorem unflatLv_spec (dflt : ν) (hd tl : κ → κ) (hH : LexSplit hd tl) (r :
       obtain ⟨p, v⟩ := pv
       cases p <;> rfl
 
+/-! ### descent to any depth (`…Below`, `depth=k`) -/
+
+/-- the sub-trees at depth `k` (one per stored path) -/
+def subsAt (a : Nat) : (k : Nat) → Tree κ ν (a + k) → List (Tree κ ν a)
+  | 0, t => [t]
+  | k + 1, f => (show List (κ × Tree κ ν (a + k)) from f).flatMap (fun e => subsAt a k e.2)
+
+/-- what holds for the transform of every sub-tree at depth `k` (success, well-formed result,
+    content = a permutation of the `φ`-image) holds for the whole tree with `φ` applied below
+    the first `k` coordinates -/
+theorem atDepth_spec_perm (dflt dflt' : ν) (a b : Nat) (g : Tree κ ν a → Option (Tree κ ν b))
+    (φ : List κ → List κ) :
+    ∀ (k : Nat) (t : Tree κ ν (a + k)), WF (a + k) t →
+      (∀ s ∈ subsAt a k t, WF a s → ∃ s', g s = some s' ∧ WF b s' ∧
+        (content dflt' b s').Perm ((content dflt a s).map (fun pv => (φ pv.1, pv.2)))) →
+      ∃ t', atDepth g k t = some t' ∧ WF (b + k) t' ∧
+        (content dflt' (b + k) t').Perm ((content dflt (a + k) t).map (fun pv => (liftN φ k pv.1, pv.2)))
+  | 0, t, hw, h => h t (List.mem_singleton.2 rfl) hw
+  | k + 1, f, hw, h => by
+    obtain ⟨bs, hbs, hk, hwb, hc⟩ := mapM?_level dflt dflt' (a + k) (b + k) (atDepth g k) (liftN φ k)
+      (show List (κ × Tree κ ν (a + k)) from f)
+      (fun e he => atDepth_spec_perm dflt dflt' a b g φ k e.2 (hw.2 e he)
+        (fun s hs => h s (List.mem_flatMap.2 ⟨e, he, hs⟩)))
+    refine ⟨show List (κ × Tree κ ν (b + k)) from bs, ?_, ⟨sorted_of_keys_eq hk hw.1, hwb⟩, hc⟩
+    unfold atDepth
+    exact congrArg (Option.map _) hbs
+
+theorem atDepth_spec_eq (dflt dflt' : ν) (a b : Nat) (g : Tree κ ν a → Option (Tree κ ν b))
+    (φ : List κ → List κ) :
+    ∀ (k : Nat) (t : Tree κ ν (a + k)), WF (a + k) t →
+      (∀ s ∈ subsAt a k t, WF a s → ∃ s', g s = some s' ∧ WF b s' ∧
+        content dflt' b s' = (content dflt a s).map (fun pv => (φ pv.1, pv.2))) →
+      ∃ t', atDepth g k t = some t' ∧ WF (b + k) t' ∧
+        content dflt' (b + k) t' = (content dflt (a + k) t).map (fun pv => (liftN φ k pv.1, pv.2))
+  | 0, t, hw, h => h t (List.mem_singleton.2 rfl) hw
+  | k + 1, f, hw, h => by
+    obtain ⟨bs, hbs, hk, hwb, hc⟩ := mapM?_level_eq dflt dflt' (a + k) (b + k) (atDepth g k) (liftN φ k)
+      (show List (κ × Tree κ ν (a + k)) from f)
+      (fun e he => atDepth_spec_eq dflt dflt' a b g φ k e.2 (hw.2 e he)
+        (fun s hs => h s (List.mem_flatMap.2 ⟨e, he, hs⟩)))
+    refine ⟨show List (κ × Tree κ ν (b + k)) from bs, ?_, ⟨sorted_of_keys_eq hk hw.1, hwb⟩, hc⟩
+    unfold atDepth
+    exact congrArg (Option.map _) hbs
+
+/-! ### `Fiber.swapRanks` -/
+
+/-- image of a point under flatten(pair) / reverse / unflatten -/
+def swapPt (comb : κ → κ → κ) (rev hd tl : κ → κ) (p : List κ) : List κ :=
+  splitTop hd tl 0 (match join2 comb p with
+    | c :: rest => rev c :: rest
+    | [] => [])
+
+theorem c1_map_key (dflt : ν) (r : Nat) (ρ : κ → κ) (l : List (κ × Tree κ ν r)) :
+    c1 dflt r (l.map (fun e => (ρ e.1, e.2))) =
+      (c1 dflt r l).map (fun pv => ((match pv.1 with | c :: rest => ρ c :: rest | [] => []), pv.2)) := by
+  unfold c1
+  induction l with
+  | nil => rfl
+  | cons e l ih =>
+    rw [List.map_cons, List.flatMap_cons, List.flatMap_cons, List.map_append, ih]
+    congr 1
+    unfold pre
+    rw [List.map_map]
+    rfl
+
+theorem present_subset {dflt : ν} {d : Nat} {f : Tree κ ν (d + 1)} {e : κ × Tree κ ν d}
+    (h : e ∈ present dflt d f) : e ∈ (show List (κ × Tree κ ν d) from f) :=
+  (List.mem_filter.1 h).1
+
+theorem flat2_sub_wf (comb : κ → κ → κ) (dflt : ν) (r : Nat) (f : Tree κ ν (r + 2)) (hw : WF (r + 2) f) :
+    ∀ x ∈ (show List (κ × Tree κ ν r) from flat2 comb dflt r f), WF r x.2 := by
+  intro x hx
+  unfold flat2 pairsOf at hx
+  obtain ⟨e', he', hx'⟩ := List.mem_flatMap.1 hx
+  obtain ⟨e, he, rfl⟩ := List.mem_map.1 he'
+  obtain ⟨y, hy, rfl⟩ := List.mem_map.1 hx'
+  exact (hw.2 e he).2 y (present_subset hy)
+
+theorem flat2_eq_nil_iff (comb : κ → κ → κ) (dflt : ν) (r : Nat) (f : Tree κ ν (r + 2)) :
+    (show List (κ × Tree κ ν r) from flat2 comb dflt r f) = [] ↔ isEmpty dflt (r + 2) f = true := by
+  have h1 : isEmpty dflt (r + 2) f = true ↔ content dflt (r + 1) (flat2 comb dflt r f) = [] := by
+    rw [isEmpty_iff_content, content_flat2, List.map_eq_nil_iff]
+  rw [h1]
+  show _ ↔ c1 dflt r (show List (κ × Tree κ ν r) from flat2 comb dflt r f) = []
+  constructor
+  · intro h; rw [h]; rfl
+  · intro h
+    -- every element of flat2 is presented, hence has content
+    cases hfl : (show List (κ × Tree κ ν r) from flat2 comb dflt r f) with
+    | nil => rfl
+    | cons x rest =>
+      exfalso
+      have hx : x ∈ (show List (κ × Tree κ ν r) from flat2 comb dflt r f) := by
+        rw [hfl]; exact List.mem_cons_self ..
+      have hne : isEmpty dflt r x.2 = false := by
+        unfold flat2 pairsOf at hx
+        obtain ⟨e', he', hx'⟩ := List.mem_flatMap.1 hx
+        obtain ⟨e, _, rfl⟩ := List.mem_map.1 he'
+        obtain ⟨y, hy, rfl⟩ := List.mem_map.1 hx'
+        have := (List.mem_filter.1 hy).2
+        simpa using this
+      rw [hfl] at h
+      unfold c1 at h
+      rw [List.flatMap_cons, List.append_eq_nil_iff] at h
+      have := (isEmpty_iff_content dflt r x.2).2 (pre_eq_nil.1 h.1)
+      rw [this] at hne
+      cases hne
+
+/-- `Fiber.swapRanks` on a non-empty well-formed fiber whose flattening is collision-free:
+    succeeds, the result is well-formed and its content is a permutation of the images -/
+theorem swapFiber_spec (comb : κ → κ → κ) (rev hd tl : κ → κ) (hH : LexSplit hd tl) (dflt : ν) (r : Nat)
+    (f : Tree κ ν (r + 2)) (hw : WF (r + 2) f)
+    (hmono : Sorted (show List (κ × Tree κ ν r) from flat2 comb dflt r f))
+    (hne : isEmpty dflt (r + 2) f = false)
+    (hinj : ∀ a ∈ (show List (κ × Tree κ ν r) from flat2 comb dflt r f),
+            ∀ b ∈ (show List (κ × Tree κ ν r) from flat2 comb dflt r f), rev a.1 = rev b.1 → a.1 = b.1) :
+    ∃ g, swapFiber comb rev hd tl dflt r f = some g ∧ WF (r + 2) g ∧
+      (content dflt (r + 2) g).Perm
+        ((content dflt (r + 2) f).map (fun pv => (swapPt comb rev hd tl pv.1, pv.2))) := by
+  have hm2 : merge2 comb mfRaise dflt dflt r f = some (flat2 comb dflt r f) := by
+    unfold merge2
+    rw [merge2T_sorted comb mfRaise dflt dflt r f hmono]
+    exact congrArg some (untag_tagWith dflt (show List (κ × Tree κ ν r) from flat2 comb dflt r f))
+  have hfl : (show List (κ × Tree κ ν r) from flat2 comb dflt r f) ≠ [] := by
+    intro h
+    rw [(flat2_eq_nil_iff comb dflt r f).1 h] at hne
+    cases hne
+  -- the reversed, sorted list
+  have hkeys : ((show List (κ × Tree κ ν r) from flat2 comb dflt r f).map
+      (fun e => (rev e.1, e.2))).Pairwise (fun a b => a.1 ≠ b.1) := by
+    rw [List.pairwise_map]
+    refine List.Pairwise.imp_of_mem ?_ (sorted_keys_ne hmono)
+    intro a b ha hb hab he
+    exact hab (hinj a ha b hb he)
+  have hs := isort_sorted _ hkeys
+  have hp := isort_perm ((show List (κ × Tree κ ν r) from flat2 comb dflt r f).map (fun e => (rev e.1, e.2)))
+  have hsne : isort ((show List (κ × Tree κ ν r) from flat2 comb dflt r f).map (fun e => (rev e.1, e.2))) ≠ [] := by
+    intro h
+    rw [h] at hp
+    have hl := hp.length_eq
+    rw [List.length_map] at hl
+    exact hfl (List.length_eq_zero_iff.1 hl.symm)
+  have hsw : ∀ x ∈ isort ((show List (κ × Tree κ ν r) from flat2 comb dflt r f).map (fun e => (rev e.1, e.2))),
+      WF r x.2 := by
+    intro x hx
+    obtain ⟨y, hy, rfl⟩ := List.mem_map.1 (hp.mem_iff.1 hx)
+    exact flat2_sub_wf comb dflt r f hw y hy
+  obtain ⟨G, hG, hGs, hGg, hGc⟩ := unflat1_spec dflt r hd tl hH _ hsne hs hsw
+  refine ⟨show List (κ × Tree κ ν (r + 1)) from G, ?_, ⟨hGs, fun g hg => ⟨(hGg g hg).2.1, (hGg g hg).2.2⟩⟩, ?_⟩
+  · unfold swapFiber
+    rw [hm2]
+    simp only []
+    rw [if_neg (by
+      intro h
+      exact hfl (List.isEmpty_iff.1 h))]
+    exact congrArg (Option.map _) hG
+  · show (c2 dflt r G).Perm _
+    rw [hGc]
+    have h1 : (c1 dflt r (isort ((show List (κ × Tree κ ν r) from flat2 comb dflt r f).map
+        (fun e => (rev e.1, e.2))))).Perm
+        (c1 dflt r ((show List (κ × Tree κ ν r) from flat2 comb dflt r f).map (fun e => (rev e.1, e.2)))) := by
+      unfold c1
+      exact List.Perm.flatMap_right _ hp
+    refine (h1.map _).trans ?_
+    rw [c1_map_key, ← c1_eq, content_flat2, List.map_map, List.map_map]
+    exact List.Perm.refl _
+
 end unflat
 
 end C09
